@@ -126,6 +126,12 @@ pub fn cases(args: &[String]) {
                     ok &= ty["_"] == json!("BitArray") && ty["0"]["0"] == json!(c["width"].as_u64().unwrap());
                     ok &= abv.as_ref().map(|s| s.replace('_', "") == canon).unwrap_or(false);
                 }
+                // 2^128 and more: no value from the AST accessor and a diagnostic from the analysis (never another number)
+                "int_overflow" => {
+                    ok &= aiv.is_none();
+                    ok &= obs["any_semantic_errors"] == json!(true);
+                    ok &= !matches!(tag, "Int" | "ImaginaryInt") || inner["value"].is_null();
+                }
                 "bool" => {
                     ok &= tag == "Bool" && inner["value"] == json!(canon == "true");
                     ok &= aboolv == Some(canon == "true");
